@@ -254,10 +254,12 @@ CFGS_QUICK = [("A", 0, 14, 256, 256, None), ("A", 2, 11, 256, 256, 7), ("A", 8, 
 
 def all_cfgs():
     out = []
-    for typ in "AB":
-        for fsci in range(9):
-            for fwi in (4, 9, 10, 11, 12, 14):
-                out.append((typ, fsci, fwi, 256, 256, None))
+    for fsci in range(9):
+        for fwi in (4, 10, 11, 13):
+            out.append(("A", fsci, fwi, 256, 256, None if fsci % 2 else 9))
+    for fsci in (0, 2, 5, 8):
+        for fwi in (9, 11):
+            out.append(("B", fsci, fwi, 256, 256, None))
     out += [("A", 8, 11, 255, 255, None), ("A", 7, 11, 64, 128, 9), ("B", 8, 10, 100, 100, 50)]
     return out
 
@@ -296,7 +298,9 @@ def gen_scripts(tier, seed):
                 pairs = [(L, R), (Ls[-1], Rs[0])]
             else:
                 pairs = [(l_, r_) for l_ in Ls for r_ in Rs]
-            for (L, R) in pairs[:1 if quick else 9]:
+            if not quick:
+                pairs = [pairs[0], pairs[-1]] if (cb + rb + ci) % 3 == 0 else [rnd.choice(pairs)]
+            for (L, R) in pairs[:1 if quick else 2]:
                 api = "send_apdu" if rnd.random() < 0.5 else "transceive"
                 ops = [["apdu", L, R, api], ["apdu", max(1, L - 1), R + 1, "transceive"]]
                 clean = run_script(base_script(cfg, ops), "probe")
@@ -313,7 +317,7 @@ def gen_scripts(tier, seed):
                     if d == "C":
                         wm = rnd.choice([2, 10, 59])
                         scripts.append(base_script(cfg, ops, wtx_at=[n], wtxm=wm))
-                        if quick and (n + ci) % 3:
+                        if (n + ci) % 3:
                             continue
                         # faults around the S(WTX) request / response / the block that follows
                         wdirs = dirs_of(run_script(base_script(cfg, ops, wtx_at=[n], wtxm=wm), "probe"))
@@ -476,8 +480,15 @@ ASIS_INVS = ["TypeOK", "AtMostOnceClean", "BlockFits", "RespIntactClean", "NoSta
 WITNESSES = ["W_Chain3", "W_CmdChain", "W_Retx", "W_Wtx", "W_Err", "W_ErrRx", "W_Third", "W_AckRetx"]
 
 
-def mc_cfg(name, variant, invs, tier, nretry01=False):
-    quick = tier == "quick"
+SIZES = {   # NOps, CLens, RLens, Cfgs, MaxFaults, MaxWtx
+    "quick": (3, "{1, 5}", "{2, 5}", "CfgsQuick", 3, 1),
+    "thorough": (3, "{1, 2, 3, 5}", "{2, 4, 5}", "CfgsQuick", 3, 1),
+    "deep": (2, "{1, 2, 3, 5}", "{2, 4, 5}", "CfgsThorough", 4, 2),
+}
+
+
+def mc_cfg(name, variant, invs, size, nretry01=False):
+    nops, cl, rl, cfgs, mf, mw = SIZES[size]
     body = """SPECIFICATION Spec
 CONSTANTS
   NOps = %d
@@ -488,11 +499,10 @@ CONSTANTS
   MaxWtx = %d
   PFates = {"lose", "corrupt", "empty"}
   CFates = {"lose"}
-  WithPing = %s
+  WithPing = TRUE
   Variant = "%s"
 CHECK_DEADLOCK FALSE
-""" % (3, "{1, 5}" if quick else "{1, 2, 3, 5}", "{2, 5}" if quick else "{2, 4, 5}",
-       "Cfgs01" if nretry01 else "CfgsQuick", 3, 1, "TRUE", variant)
+""" % (nops, cl, rl, "Cfgs01" if nretry01 else cfgs, mf, mw, variant)
     body += "".join("INVARIANT %s\n" % i for i in invs)
     d = os.path.join(tlc.OUT, PID)
     os.makedirs(d, exist_ok=True)
@@ -509,15 +519,19 @@ def run(tier, seed):
 
     # 1. exhaustive model checking (all TLC jobs run concurrently with the recording of the real executions) ----
     jobs = {
-        "fixed": ("fixed", CLEAN_INVS, False, 6),
-        "asis": ("asis", ASIS_INVS, False, 6),
+        "fixed": ("fixed", CLEAN_INVS, False, 6, tier),
+        "asis": ("asis", ASIS_INVS, False, 6, tier),
     }
+    if not quick:
+        jobs["fixed_deep"] = ("fixed", CLEAN_INVS, False, 6, "deep")
+        jobs["asis_deep"] = ("asis", ASIS_INVS, False, 6, "deep")
     for inv in EXPECTED_ASIS:
-        jobs["x_" + inv] = ("asis", [inv], True, 1)
+        jobs["x_" + inv] = ("asis", [inv], True, 1, "quick")
+    main_jobs = [n for n in jobs if not n.startswith("x_")]
 
     def mc(name):
-        variant, invs, n01, workers = jobs[name]
-        cfgp = mc_cfg(name, variant, invs, tier, n01)
+        variant, invs, n01, workers, size = jobs[name]
+        cfgp = mc_cfg(name, variant, invs, size, n01)
         try:
             return name, tlc.run("MC_IsoDep.tla", cfgp, PID + "/mc_" + name, workers=workers,
                                  timeout=400 if quick else 3000)
@@ -537,7 +551,7 @@ def run(tier, seed):
     res = dict(f.result() for f in futs)
     hit, _ = wfut.result()
     pool.shutdown()
-    for name in ("fixed", "asis"):
+    for name in main_jobs:
         r = res[name]
         if not r.ok:
             ck.violation("spec:IsoDep(%s):%s" % (name, ",".join(r.violated or ["deadlock"])),
